@@ -311,6 +311,8 @@ def run_check(prop, tier, seed):
 
     # 4. known findings / replays
     os.makedirs(os.path.join(REPLAYS, prop), exist_ok=True)
+    for old_replay in glob.glob(os.path.join(REPLAYS, prop, "*.json")):
+        os.unlink(old_replay)
     new, attributed = [], collections.defaultdict(list)
     for v in violations:
         k = match_known(v, known, prop)
